@@ -261,7 +261,11 @@ func resolveLocalInit(e ast.Expr, scope ast.Node, info *types.Info) ast.Expr {
 }
 
 // R07b: the kinds of node that bind a name agree between the checker and both backends.
-func ruleR07b(c *Ctx) {
+func ruleR07b(c *Ctx) { ruleR07bFor(c, true, true) }
+
+// ruleR07bFor compares the renderer's binder kinds with the compile-time checker's (withChecker) and/or
+// the JavaScript generator's (withJS): a property is only told about the sides it speaks of.
+func ruleR07bFor(c *Ctx, withChecker, withJS bool) {
 	sfH := getScopeFacts(c, "soyhtml")
 	if sfH == nil {
 		return
@@ -279,6 +283,7 @@ func ruleR07b(c *Ctx) {
 		_, isField := ast.Unparen(se.X).(*ast.SelectorExpr)
 		return isField
 	})
+	jsBind := scopeBinderMethods(c, "soyjs", "scope")
 	js := binderFields(c, "soyjs", "state.walk", func(call *ast.CallExpr, info *types.Info) bool {
 		cal := calleeFunc(call, info)
 		if cal == nil || cal.Type().(*types.Signature).Recv() == nil {
@@ -288,8 +293,8 @@ func ruleR07b(c *Ctx) {
 		if rt == nil || rt.Obj().Name() != "scope" {
 			return false
 		}
-		// scope methods that take a variable name and create a binding
-		return cal.Type().(*types.Signature).Params().Len() == 1 && cal.Name() != "lookup"
+		// scope methods that take a variable name and create a binding under it
+		return jsBind[cal]
 	})
 	// the checker: appends of node.Field to its binder lists
 	chk := map[string]bool{}
@@ -309,20 +314,30 @@ func ruleR07b(c *Ctx) {
 			isAppend = true
 		}
 		for _, a := range call.Args {
-			fv := fieldOfExpr(a, cinfo)
-			if fv == nil {
-				continue
+			// the node field handed over, directly or inside the record that is appended
+			var sels []*ast.SelectorExpr
+			if isAppend {
+				ast.Inspect(a, func(y ast.Node) bool {
+					if se, ok := y.(*ast.SelectorExpr); ok && fieldOfExpr(se, cinfo) != nil {
+						sels = append(sels, se)
+					}
+					return true
+				})
+			} else if se, ok := ast.Unparen(a).(*ast.SelectorExpr); ok && fieldOfExpr(se, cinfo) != nil {
+				sels = append(sels, se)
 			}
-			se := ast.Unparen(a).(*ast.SelectorExpr)
-			tv, ok := cinfo.Types[se.X]
-			if !ok {
-				continue
-			}
-			if r, tn, ok := relPkgOfType(tv.Type); ok && r == "ast" {
-				if isAppend {
-					chk[tn+"."+fv.Name()] = true
-				} else if cal := calleeFunc(call, cinfo); cal != nil && strings.Contains(strings.ToLower(cal.Name()), "key") {
-					uses[tn+"."+fv.Name()] = true
+			for _, se := range sels {
+				fv := fieldOfExpr(se, cinfo)
+				tv, ok := cinfo.Types[se.X]
+				if !ok {
+					continue
+				}
+				if r, tn, ok := relPkgOfType(tv.Type); ok && r == "ast" {
+					if isAppend {
+						chk[tn+"."+fv.Name()] = true
+					} else if cal := calleeFunc(call, cinfo); cal != nil && strings.Contains(strings.ToLower(cal.Name()), "key") {
+						uses[tn+"."+fv.Name()] = true
+					}
 				}
 			}
 		}
@@ -341,13 +356,30 @@ func ruleR07b(c *Ctx) {
 	for k := range chk {
 		all[k] = true
 	}
+	if !withJS {
+		for k := range js {
+			if !run[k] && !chk[k] {
+				delete(all, k)
+			}
+		}
+	}
+	if !withChecker {
+		for k := range chk {
+			if !run[k] && !js[k] {
+				delete(all, k)
+			}
+		}
+	}
 	for _, k := range sortedKeys(all) {
 		key := "binder " + k
-		c.check(run[k] && js[k] && chk[k], "R07b", key, ck.Pos(),
+		c.check(run[k] && (js[k] || !withJS) && (chk[k] || !withChecker), "R07b", key, ck.Pos(),
 			"bound by the Go renderer, by the JavaScript generator and recorded as a binder by the compile-time checker",
 			fmt.Sprintf("binder disagreement: renderer=%v generator=%v checker=%v; a name bound at run time but unknown to the checker is rejected, one known only to the checker is looked up unbound", run[k], js[k], chk[k]))
 	}
 	c.floor("R07b", "binder kinds", 3, len(all))
+	if !withChecker {
+		return
+	}
 	c.check(uses["DataRefNode.Key"], "R07b", "use DataRefNode.Key", ck.Pos(), "every data reference's key is checked against the bindings", "the checker no longer checks DataRefNode.Key against the bindings")
 }
 
@@ -614,4 +646,56 @@ func ruleR07e(c *Ctx) {
 		}
 	}
 	c.floor("R07e", "binder kinds in the checker", 3, n)
+}
+
+// scopeBinderMethods: the methods of the generator's scope type that store a binding keyed by their
+// (string) parameter: m[param] = ... or a map literal {param: ...}. Look-ups only read.
+func scopeBinderMethods(c *Ctx, rel, typeName string) map[*types.Func]bool {
+	out := map[*types.Func]bool{}
+	p := c.pkg(rel)
+	if p == nil {
+		return out
+	}
+	info := p.TypesInfo
+	for _, fd := range c.allFuncDecls(rel) {
+		if fd.Recv == nil || len(fd.Recv.List) != 1 || recvTypeName(fd.Recv.List[0].Type) != typeName {
+			continue
+		}
+		params := map[types.Object]bool{}
+		for _, fl := range fd.Type.Params.List {
+			for _, nm := range fl.Names {
+				if o := info.Defs[nm]; o != nil {
+					params[o] = true
+				}
+			}
+		}
+		isParam := func(e ast.Expr) bool {
+			id, ok := ast.Unparen(e).(*ast.Ident)
+			return ok && params[info.Uses[id]]
+		}
+		binds := false
+		ast.Inspect(fd.Body, func(x ast.Node) bool {
+			switch n := x.(type) {
+			case *ast.AssignStmt:
+				for _, l := range n.Lhs {
+					// a store into a frame of the stack: stack[i][param] = ... (a store into a table
+					// kept beside the frames is not a binding)
+					if ix, ok := l.(*ast.IndexExpr); ok && isParam(ix.Index) {
+						if _, frame := ast.Unparen(ix.X).(*ast.IndexExpr); frame {
+							binds = true
+						}
+					}
+				}
+			case *ast.KeyValueExpr:
+				if isParam(n.Key) {
+					binds = true
+				}
+			}
+			return true
+		})
+		if fn, ok := info.Defs[fd.Name].(*types.Func); ok && binds {
+			out[fn] = true
+		}
+	}
+	return out
 }
